@@ -185,6 +185,28 @@ def build_circuit(N, gates, ugs=()):
     return qc
 
 
+def build_circuit_meas(N, gates, ugs, meas):
+    """the circuit with a measurement (of qubit i mod N, stored in classical bit 0) inserted in front of gate number i
+    for every i in `meas` (i = len(gates): at the end)"""
+    from qutip_qip.circuit import QubitCircuit
+    kw = {"user_gates": {u.name: u.pyobj() for u in ugs}} if ugs else {}
+    qc = QubitCircuit(N, num_cbits=1, **kw)
+    for i in range(len(gates) + 1):
+        for _ in range(meas.count(i)):
+            qc.add_measurement("M", targets=[i % N], classical_store=0)
+        if i < len(gates):
+            g = gates[i]
+            kw = {}
+            av = g.arg_value()
+            if av is not None:
+                kw["arg_value"] = av
+            if g.cn:
+                qc.add_gate(g.name, targets=(g.t if g.t else None), **kw)
+            else:
+                qc.add_gate(g.name, targets=(g.t if g.t else None), controls=g.c, **kw)
+    return qc
+
+
 def classify_exc(e):
     msg = str(e)
     if isinstance(e, IndexError):
@@ -193,6 +215,8 @@ def classify_exc(e):
         return "empty"
     if isinstance(e, NotImplementedError):
         return "unknownGate"
+    if isinstance(e, TypeError) and "measurement" in msg:
+        return "measurement"
     if isinstance(e, ValueError):
         if "takes only" in msg:
             return "userControls"
@@ -408,6 +432,25 @@ def random_user_table(rng):
     return ugs
 
 
+def random_gate_list(rng, N, L, ugs):
+    """up to L exact library gates / user gates of the table on N qubits"""
+    gates = []
+    for _ in range(L):
+        usable = [u for u in ugs if u.m <= N]
+        if usable and rng.random() < 0.4:
+            u = rng.choice(usable)
+            gates.append(G(u.name, rng.sample(range(N), u.m), [], user=True,
+                           arg=(rng.randint(-3, 3) if u.kind == "fn1" else None)))
+        else:
+            g = random_exact_gate(rng, N)
+            # a library name shadowed by the user table resolves to the user matrix: keep arities consistent
+            sh = [u for u in ugs if u.name == g.name]
+            if sh:
+                continue
+            gates.append(g)
+    return gates
+
+
 def random_state(rng, n, dense=False):
     v = [rand_scalar(rng, dense) for _ in range(n)]
     if all(all(x == 0 for x in c) for _, c in v):
@@ -442,6 +485,14 @@ class C01(PropertyCheck):
         "QipVerif.C01.sortDedup_spec",
         "QipVerif.C01.oracles_legal",
         "QipVerif.C01.C01_counterexample_unsorted_order",
+        "QipVerif.C01.resolve_user_spec",
+        "QipVerif.C01.resolve_library_spec",
+        "QipVerif.C01.user_circuit_run_eq_den",
+        "QipVerif.C01.propagators_measurement_spec",
+        "QipVerif.C01.propagators_ignore_product_eq_den",
+        "QipVerif.C01.propagators_product_rtl_eq_den_reverse",
+        "QipVerif.C01.propagators_compact_eq",
+        "QipVerif.C01.compact_pipeline_eq_den",
     ]
     technique = ("Lean 4 proof (list combinatorics of the einsum index lists; contraction = embedded operator via the split "
                  "equivalence; induction over the gate list; invariant of the block list of the compact product) + "
@@ -499,6 +550,13 @@ class C01(PropertyCheck):
                 sim.step()
                 res.append(sim.state.full().copy())
             return res
+        if paths is None:
+            def pre():
+                import warnings
+                with warnings.catch_warnings():
+                    warnings.simplefilter("ignore")
+                    return CircuitSimulator(qc, precompute_unitary=True).run(qket).get_final_states(0).full().ravel()
+            out["ketpre"] = guarded(pre)
         if want("ket_steps"):
             out["ket_steps"] = guarded(lambda: [s.ravel() for s in steps("state_vector_simulator", qket)])
         if want("oper"):
@@ -540,6 +598,7 @@ class C01(PropertyCheck):
         base = f"N={N} ug={enc_ug(ugs)} ops={enc_ops(gates)}"
         allp = [
             ("ket", f"ket {base} state={enc_vec(ket)} trace=0"),
+            ("ketpre", f"ket {base} state={enc_vec(ket)} trace=0"),      # precompute_unitary=True: a warning, same run
             ("ket_steps", f"ket {base} state={enc_vec(ket)} trace=1"),
             ("oper", f"oper {base} state={enc_mat(oper)} trace=0"),
             ("oper_steps", f"oper {base} state={enc_mat(oper)} trace=1"),
@@ -553,7 +612,7 @@ class C01(PropertyCheck):
             ("prod_rtl", f"prod {base} ltr=0"),
             ("compact", f"compact {base} ord=sorted"),
         ]
-        sel = [(n, l) for n, l in allp if paths is None or n in paths]
+        sel = [(n, l) for n, l in allp if paths is None or (n in paths and n != "ketpre")]
         sel += [("lists", f"lists n={N} targets={','.join(map(str, g.qubits()))}") for g in gates if g.name != "GLOBALPHASE"]
         return sel
 
@@ -568,7 +627,7 @@ class C01(PropertyCheck):
         if not ans.startswith("ok"):
             return ans.replace("embed-index", "index"), None     # both are IndexError
         body = ans[3:].strip()
-        if name in ("ket",):
+        if name in ("ket", "ketpre"):
             return "ok", parse_vec(body)
         if name == "ket_steps":
             return "ok", [parse_vec(b) for b in body.split("#")] if body else []
@@ -789,6 +848,74 @@ class C01(PropertyCheck):
             res.disagree({"malformed": "empty-compact"}, o, st, "empty compact product", None)
 
     # --------------------------------------------------------------------------------------------
+    def _measurement_stream(self, ctx, res):
+        """propagators(expand, ignore_measurement) on circuits with measurements: model `propsm` against the code, and
+        the property (product of the propagators with ignore_measurement=True = ordered product of the gates)"""
+        rng = ctx.rng
+        from qutip_qip.operations import gate_sequence_product
+        cases, lines = [], []
+        for i in range(120 if ctx.thorough else 36):
+            N = rng.choice([1, 2, 2, 3])
+            ugs = random_user_table(rng) if rng.random() < 0.3 else []
+            gates = random_gate_list(rng, N, rng.randint(0, 4), ugs)
+            meas = sorted(rng.randint(0, len(gates)) for _ in range(rng.choice([0, 1, 1, 2, 3])))
+            for e in (0, 1):
+                for ig in (0, 1):
+                    cases.append((N, gates, ugs, meas, e, ig))
+                    lines.append(f"propsm N={N} expand={e} ignore={ig} ug={enc_ug(ugs)} ops={enc_ops(gates)} "
+                                 f"meas={','.join(map(str, meas)) if meas else '-'}")
+        outs = ctx.driver("drv_ket").run(lines)
+        for (N, gates, ugs, meas, e, ig), o in zip(cases, outs):
+            inp = {"N": N, "gates": [g.js() for g in gates], "ug": [[u.name, u.kind, u.m] for u in ugs], "meas": meas,
+                   "path": f"propagators(expand={bool(e)}, ignore_measurement={bool(ig)})"}
+            witness = {"kind": "meas", "N": N, "gates": [g.js() for g in gates], "ug": [u.js() for u in ugs], "meas": meas}
+            st, qc = guarded(lambda: build_circuit_meas(N, gates, ugs, meas))
+            if st != "ok":
+                res.case(inp, True, ["meas", "build-error"])
+                res.disagree(inp, "circuit", st, "circuit construction failed", witness)
+                continue
+            ist, iv = guarded(lambda: [p.full() for p in qc.propagators(expand=bool(e), ignore_measurement=bool(ig))])
+            ms, mv = self._decode("props1", o)
+            res.case(inp, True, ["meas", f"nmeas={len(meas)}", f"ignore={ig}", f"expand={e}", "verdict=" + ms])
+            if ms != ist or (ms == "ok" and not self._same("props1", mv, iv)):
+                res.disagree(inp, ms if ms != "ok" else "value", ist if ist != "ok" else "value",
+                             "propagators on a circuit with measurements", witness)
+            if e == 1 and ig == 1:
+                fails, detail = self._oracle_meas(N, gates, ugs, meas)
+                if fails:
+                    res.disagree(dict(inp, path="oracle"), "dense product", detail,
+                                 "propagators(ignore_measurement=True) leave the ordered product of the gates", witness)
+
+    def _oracle_meas(self, N, gates, ugs, meas):
+        """the property on a circuit with measurements: the propagators with ignore_measurement=True are those of the
+        gates alone (their product = the ordered product of the documented / user matrices); without the flag a
+        circuit containing a measurement is refused"""
+        from qutip_qip.operations import gate_sequence_product
+        utab = {u.name: u for u in ugs}
+        try:
+            qc = build_circuit_meas(N, gates, ugs, meas)
+            D = dense_product(N, gates, utab)
+            Us = qc.propagators(expand=True, ignore_measurement=True)
+        except Exception as e:
+            return True, "propagators(ignore_measurement=True) raised " + repr(e)
+        if len(Us) != len(gates):
+            return True, f"{len(Us)} propagators for {len(gates)} gates"
+        if gates:
+            P = gate_sequence_product(Us).full()
+            d = float(np.abs(P - D).max())
+            if not d <= 1e-9 * max(1.0, float(np.abs(D).max())):
+                return True, f"product of propagators(ignore_measurement=True) deviates from the ordered product by {d:.3g}"
+        if meas:
+            try:
+                qc.propagators(expand=True)
+                return True, "propagators() accepted a circuit with a measurement"
+            except TypeError:
+                pass
+            except Exception as e:
+                return True, "propagators() on a circuit with a measurement raised " + repr(e)
+        return False, "propagators with ignore_measurement agree with the ordered product of the gates"
+
+    # --------------------------------------------------------------------------------------------
     def correspondence(self, ctx, res):
         rng = ctx.rng
         t0 = time.time()
@@ -823,20 +950,7 @@ class C01(PropertyCheck):
             N = rng.choice([1, 2, 2, 3, 3, 4, 4, 5]) if i % 10 else 6
             L = rng.randint(0, 8) if N < 6 else rng.randint(1, 4)
             ugs = random_user_table(rng) if rng.random() < 0.45 else []
-            gates = []
-            for _ in range(L):
-                usable = [u for u in ugs if u.m <= N]
-                if usable and rng.random() < 0.4:
-                    u = rng.choice(usable)
-                    gates.append(G(u.name, rng.sample(range(N), u.m), [], user=True,
-                                   arg=(rng.randint(-3, 3) if u.kind == "fn1" else None)))
-                else:
-                    g = random_exact_gate(rng, N)
-                    # a library name shadowed by the user table resolves to the user matrix: keep arities consistent
-                    sh = [u for u in ugs if u.name == g.name]
-                    if sh:
-                        continue
-                    gates.append(g)
+            gates = random_gate_list(rng, N, L, ugs)
             paths = None if N <= 4 else {"ket", "ket_steps", "dm", "unitary", "prod_ltr", "compact", "props0", "dmket"}
             if N == 6:
                 paths = {"ket", "ket_steps", "dm", "unitary", "compact"}
@@ -854,7 +968,9 @@ class C01(PropertyCheck):
             N = rng.choice([9, 10, 11, 12] if ctx.thorough else [9, 10, 11])
             self._big_compact(ctx, res, N, self._random_big(rng, N), ["big"])
         ctx.log(f"  big done at {time.time() - t0:.1f}s")
-        # 6. malformed stream
+        # 6. circuits with measurements: propagators(expand, ignore_measurement)
+        self._measurement_stream(ctx, res)
+        # 7. malformed stream
         self._malformed(ctx, res)
         ctx.log(f"correspondence took {time.time() - t0:.1f}s")
 
@@ -899,6 +1015,12 @@ class C01(PropertyCheck):
                 last = sim.state.full()      # read between the steps, as the documentation does
             return last
 
+        def pre():
+            import warnings
+            with warnings.catch_warnings():
+                warnings.simplefilter("ignore")
+                return CircuitSimulator(qc, precompute_unitary=True).run(qket).get_final_states(0).full().ravel()
+
         def compact():
             Us = qc.propagators(expand=False)
             inds = [g.qubits() if g.name != "GLOBALPHASE" else list(range(N)) for g in gates]
@@ -923,6 +1045,7 @@ class C01(PropertyCheck):
             ("state-vector mode, operator input", lambda: (CircuitSimulator(qc, mode="state_vector_simulator").run(qop)
                                                            .get_final_states(0).full(), D @ A)),
             ("compute_unitary", lambda: (qc.compute_unitary().full(), D)),
+            ("CircuitSimulator(precompute_unitary=True).run(ket)", lambda: (pre(), D @ psi)),
         ]
         if gates:
             paths += [
@@ -971,6 +1094,8 @@ class C01(PropertyCheck):
         if w["kind"] == "compact":
             return self._oracle_compact(w["N"], gates, ctx.rng)
         ugs = [UG(*u) for u in w.get("ug", [])]
+        if w["kind"] == "meas":
+            return self._oracle_meas(w["N"], gates, ugs, w["meas"])
         return self._oracle_circuit(w["N"], gates, ugs, ctx.rng)
 
     def _random_witness(self, rng):
